@@ -564,6 +564,18 @@ def doc_escapes(c, d, ctx, depth=0, through_wrappers=False):
     return out
 
 
+def posfree(f):
+    """Ser/DeserExn.posfree: no positional container reachable without crossing a multi-field wrapper"""
+    t = f["t"]
+    if t in ("seqpos", "tuple"):
+        return False
+    if t in ("seqeach", "set"):
+        return f.get("item") is None or posfree(f["item"])
+    if t == "mapkv":
+        return posfree(f["kf"]) and posfree(f["vf"])
+    return True
+
+
 ESCAPE_SHAPE = {
     "IndexError": "document-shorter-than-positional-items",
     "InvalidOperation": "decimal-non-numeric-string-outside-wrapper",
